@@ -202,6 +202,26 @@ def obligations(r, tier, seed):
     obs.append(Ob("C02/Graph.calc_chi2/real-edges-SE2-R2", graph_real, scope="shape-bounded", bound="one 3-vertex, 3-edge graph",
                   funcs=["graphslam.graph.Graph.calc_chi2", BASE + ".calc_chi2"]))
 
+    # ---- the chi2 that optimize() accumulates and reports is the same sum over ALL edges (also edges that touch fixed vertices only)
+    for fixed in ((), (0,), (0, 1), (0, 1, 2)):
+        def reported(k, fixed=fixed):
+            from gsv.contracts import common
+            from gsv.contracts.c12 import chi2_sum
+            r_ = k.r
+            ghost = common.Ghost()
+            Cut = common.opaque_edge_class(k, ghost)
+            vs = [r_.Vertex(i, r_.PoseR2([k.real("v%dx" % i), k.real("v%dy" % i)]), fixed=(i in fixed)) for i in range(3)]
+            es = [Cut([0, 1]), Cut([1, 2]), Cut([2]), Cut([0]), Cut([1, 0])]
+            g = r_.Graph(es, vs)
+            with common.counting_spsolve(k, ghost):
+                ret = g.optimize(tol=0, max_iter=1, fix_first_pose=False, verbose=False)
+            k.eq(ret.initial_chi2, chi2_sum(es, 0, ghost), "initial_chi2 == sum over all edges at the initial state")
+            k.eq(ret.final_chi2, chi2_sum(es, ghost.s, ghost), "final_chi2 == sum over all edges at the returned state")
+            k.eq(g.calc_chi2(), chi2_sum(es, ghost.s, ghost), "Graph.calc_chi2() afterwards == the same sum")
+        obs.append(Ob("C02/Graph.optimize-reports-the-sum-over-all-edges/fixed=%s" % (",".join(map(str, fixed)) or "none"), reported, scope="shape-bounded",
+                      bound="3 vertices, 5 cut edges, fixed set %s" % (fixed,), funcs=["graphslam.graph.Graph._calc_chi2_gradient_hessian", "graphslam.graph.Graph.calc_chi2"],
+                      solver="functional", light=True))
+
     # canaries
     def canary_transposed(k):
         e = k.vec("e", 2)
